@@ -91,7 +91,7 @@ Print Assumptions C02_layout_output_is_the_input.
 (* ---------- every positioner, Brandes-Koepf included (Model/PipelineBK.v: [layout_x bk] is Layout with
    PositioningBrandesKoepf and WithBrandesKoepfLayout(bk) when the positioner is [OtherPositioner], and is [layout]
    otherwise, BKPipeline.layout_x_eq) ---------- *)
-From Autog Require Import PipelineBK BKPipeline BKPipeline2.
+From Autog Require Import PipelineBK E2EBridge BKPipeline BKPipeline2.
 
 Theorem C02_component_end_to_end_any_positioner : forall bk o g g' x, component_input g -> modelled_p5 (o_p5 o) ->
   layout_component_x bk o g = Ok (g', x) -> E1_statement g g'.
